@@ -32,21 +32,6 @@ func VString(v *ast.Value) string { panic("ghost") }
 //@ modifies fresh
 //@ end
 
-//@ extern github.com/buildbuildio/pebbles/common IsBuiltinName
-//@ ensures result == hasprefix(s, "__")
-//@ modifies fresh
-//@ end
-
-//@ extern github.com/buildbuildio/pebbles/common IsQueryObjectName
-//@ ensures result == (s == "Query")
-//@ modifies fresh
-//@ end
-
-//@ extern github.com/buildbuildio/pebbles/common IsNodeInterfaceName
-//@ ensures result == (s == "Node")
-//@ modifies fresh
-//@ end
-
 //@ define wfTM(t TypeURLMap) bool = forallT(k, string, has(t, k) ==> t[k] != nil && t[k].Fields != nil) && forallT(k1, string, forallT(k2, string, has(t, k1) && has(t, k2) && k1 != k2 ==> t[k1] != t[k2] && t[k1].Fields != t[k2].Fields))
 //@ define routed(t TypeURLMap, ty string, f string) bool = has(t, ty) && has(t[ty].Fields, f)
 //@ define route(t TypeURLMap, ty string, f string) string = t[ty].Fields[f]
